@@ -127,15 +127,37 @@ def run(ctx):
     ctx.touch(f)
     s = sym.summarize(repo, f.qualname, inline=INLINE)
     where = ctx.where(f)
+    # the answer must be computed from the mesh as it is now: a path that hands back what an earlier call stored (self.neighbors) is a
+    # cache that nothing invalidates when cells are removed or vertices merged
+    stale_leaves = []
+
+    def leaves(t, path=()):
+        if t[0] == "phi":
+            leaves(t[2], path + (t[1],))
+            leaves(t[3], path + (T.b_not(t[1]),))
+        elif t == T.attr(SELF, "neighbors"):
+            stale_leaves.append(path)
+    leaves(s.ret())
+    if stale_leaves:
+        ctx.violation("STATE", f"{f.qualname} / STATE / neighbours are recomputed on every call", where,
+                      f"under {[T.show(c)[:60] for c in stale_leaves[0]]} calculate_neighbors returns the list stored by an earlier call: after a cell is removed (ForSys.remove_cell "
+                      f"rebuilds the Frame around the same Cell objects) the removed cell is still reported as a neighbour")
     nf = rules.setnf(s.ret())
     if nf is None:
         raise AnalysisError(f"{where}: neighbour set not in the finite-set fragment: {T.show(s.ret())[:200]}")
     gens, removed = nf
     b = ("bv", 0)
     want_gen = ("for", T.alpha(("b", ("all", T.attr(b, "ownCells")), b, verts, T.TRUE)))
-    ctx.check(gens == frozenset({want_gen}), "FORM", f"{f.qualname} / FORM / union of ownCells over the cycle", where,
-              "neighbour candidates = union of v.ownCells for v in self.vertices",
-              f"neighbour candidates are {sorted(map(str, gens))[:3]}, expected the union of v.ownCells over self.vertices")
+    # positively wrong: the same union, but over a FILTERED cycle - a filter on the vertices can only lose neighbours
+    filtered = [g_ for g_ in gens if g_[0] == "for" and g_[1][0] == "b" and g_[1][1] == want_gen[1][1] and g_[1][3] == want_gen[1][3] and g_[1][4] != T.TRUE]
+    if filtered and gens != frozenset({want_gen}):
+        ctx.violation("FORM", f"{f.qualname} / FORM / union of ownCells over the cycle", where,
+                      f"neighbour candidates are collected only from the vertices satisfying {T.show(filtered[0][1][4])[:80]}: a neighbour that shares only other vertices with "
+                      f"the cell (e.g. an edge between two border vertices) is lost")
+    else:
+        ctx.check(gens == frozenset({want_gen}), "FORM", f"{f.qualname} / FORM / union of ownCells over the cycle", where,
+                  "neighbour candidates = union of v.ownCells for v in self.vertices",
+                  f"neighbour candidates are {sorted(map(str, gens))[:3]}, expected the union of v.ownCells over self.vertices")
     ctx.check(removed == frozenset({T.attr(SELF, "id")}), "FORM", f"{f.qualname} / FORM / minus the cell itself", where,
               "exactly self.id is removed", f"removed elements are {[T.show(x) for x in removed]}, expected exactly self.id")
     st = [e for e in s.stores("neighbors") if e.base == SELF]
